@@ -324,9 +324,9 @@ def run(ctx):
         for i, cp in enumerate(corpus):
             runs.append(("corpus%d" % i, "-replay %s" % cp))
         if quick:
-            runs.append(("fresh", "-seed %d -stores 14 -cases 70 -engines mem,pebble -srv 1 -big 5003 -exh 6" % ctx.seed))
+            runs.append(("fresh", "-seed %d -stores 14 -cases 70 -engines mem,pebble -srv 1 -srvbig 5600 -big 5003 -exh 6" % ctx.seed))
         else:
-            runs.append(("fresh", "-seed %d -stores 1200 -cases 140 -engines mem,pebble,rocksdb -srv 20 -big 5003 -exh 9" % ctx.seed))
+            runs.append(("fresh", "-seed %d -stores 1200 -cases 140 -engines mem,pebble,rocksdb -srv 20 -srvbig 5600 -big 5003 -exh 9" % ctx.seed))
 
     all_mism, all_fail, total, hist_all, samples, distinct = [], [], 0, {}, [], set()
     engines = {}
@@ -379,6 +379,7 @@ def run(ctx):
              "E = H/S/ZSCAN(+REV), each iterated by feeding the cursor back until empty (bound |P|+3), COUNT in {1,2,3,5,|P|,|P|+1,absent,random}, start cursor "
              "empty / an element / element+0x00 / element minus last byte / above all, MATCH from {*,?,literal} patterns in 35%; R = range builders; "
              "S = the same iteration over the redis protocol against a live 1..4-partition in-process server (model: per-partition stores, merged cursor, COUNT split); "
+             "vbig = one live 2-partition server with a 5600-key table (pipelined SETs), SCAN/ADVSCAN(+REV) with COUNT 4999, 5000, 5001, 5200, 6000, 10000, 10001, 12000 and none; "
              "F = FULLSCAN per type (direct oracle only); one store with 5003 keys and COUNT around MAX_BATCH_NUM; "
              "x* = exhaustive small scope: every subset of a pool of 6 (thorough: 9) prefix/boundary-related names as the keys of a table and as the fields of a hash, "
              "COUNT 1..3, both directions, every start cursor from the pool. "
